@@ -210,6 +210,33 @@ def thread_schedule(store_a, store_b, op_a, op_b, pause_at, block_timeout=0.25):
     return {"results": [a.result, b.result], "order": order, "a_points": a.points, "b_blocked": b_blocked}
 
 
+def thread_schedule_n(store, ops, pause_at, block_timeout=0.25):
+    """ops[0] runs to its pause_at-th yield point; ops[1:] are started one after the other while it
+    is stopped (each runs to completion or blocks); ops[0] resumes; everybody finishes.
+    -> dict(results=[…], order=[indices in completion order])"""
+    install()
+    ws = [Worker(store, ops[0], pause_at)] + [Worker(store, op, None) for op in ops[1:]]
+    order = []
+    lock = threading.Lock()
+
+    def watch(i):
+        ws[i].done.wait(90)
+        with lock:
+            order.append(i)
+    watchers = [threading.Thread(target=watch, args=(i,), daemon=True) for i in range(len(ws))]
+    ws[0].start()
+    watchers[0].start()
+    ws[0].paused.wait(30)
+    for i in range(1, len(ws)):
+        ws[i].start()
+        watchers[i].start()
+        ws[i].done.wait(block_timeout)
+    ws[0].go.set()
+    for t in watchers:
+        t.join(100)
+    return {"results": [w.result for w in ws], "order": list(order), "a_points": ws[0].points}
+
+
 # ---------------------------------------------------------------------------------------------
 # process mode: each operation in a process of its own (conc_worker.py), same yield points
 
